@@ -117,7 +117,37 @@ def stdin_texts(specs):
         yield 'no-final-newline', whole[:-1]
 
 
+def fixed_order_items():
+    """Spec sets whose verdict must be the same under every file order although they are not all valid: import rings (always refused),
+    a diamond with a two-cycle at the bottom (refused), a diamond (accepted)."""
+    from mc import paramspace
+    groups = {}
+    for label, ok, rule, specs in paramspace.fixed_items():
+        if label.startswith(('import-cycle|', 'import-diamond|')):
+            key = label.split(', file order')[0].split('|file order')[0]
+            groups.setdefault(key, (ok, sorted(specs)))
+    return [('fixed-order', k, ok, specs) for k, (ok, specs) in sorted(groups.items())]
+
+
+def fixed_order_task(item):
+    import itertools
+    _, label, ok, specs = item
+    verdicts = {}
+    n = 0
+    for perm in itertools.permutations(specs):
+        n += 1
+        out = impl.compile_specs(list(perm))
+        verdicts.setdefault(out.kind if out.kind != 'escape' else out.escape_identity(), []).append([p for p, _ in perm])
+    v = []
+    if len(verdicts) > 1:
+        v.append(viol('layout-changes-acceptance:file-order:' + label.split('|')[0], 'the verdict for %s depends on the order of the files: %s' % (
+            label, {k: x[0] for k, x in verdicts.items()}), {'specs': [list(x) for x in specs], 'variant_specs': [list(x) for x in specs], 'variant': 'file-order', 'label': label}))
+    return {'outcome': 'fixed-order:%s' % '+'.join(sorted(verdicts)), 'viol': v, 'n': n, 'transitions': n}
+
+
 def task(item):
+    if item[0] == 'fixed-order':
+        return fixed_order_task(item)
     model, trace, pname, text_level, with_bytes = item
     ref_specs = render.render(model)
     ref = impl.compile_specs(ref_specs)
@@ -202,6 +232,9 @@ def run(tier, seed):
     for s, tr, pn, tl, wb in models[:2] + models[-2:]:
         r.sample({'profile': pn, 'trace': list(tr), 'reference_layout': render.render(s)})
     r.bounds['models'] = len(models)
+    fixed = fixed_order_items()
+    r.bounds['fixed_verdict_spec_sets_under_every_file_order'] = len(fixed)
+    models = list(models) + fixed
     r.bounds['backends_compared'] = BACKENDS
     r.run_tasks(task, models, budget=300, chunksize=4)
     r.assumptions = ['positions inside multi-line doc strings are excluded from comment/blank insertion (a # there is text)',
